@@ -121,9 +121,8 @@ func RunDaemon() {
 			g.Add(func() error {
 				err := mon.Run(ctx)
 				ui.Info("Sensor Monitor for sensor %s stopped.", s.GetId())
-				if err != nil {
-					panic(err)
-				}
+				// returning the error makes the actor group shut down in an orderly
+				// fashion, so that every fan controller restores its fan
 				return err
 			}, func(err error) {
 				if err != nil {
@@ -141,8 +140,9 @@ func RunDaemon() {
 				err := fanController.Run(ctx)
 				ui.Info("Fan controller for fan %s stopped.", fan.GetId())
 				if err != nil {
+					// returning the error makes the actor group shut down in an orderly
+					// fashion, so that the other fan controllers restore their fans
 					ui.NotifyError(fmt.Sprintf("Fan Controller: %s", fan.GetId()), err.Error())
-					panic(err)
 				}
 				return err
 			}, func(err error) {
